@@ -703,6 +703,10 @@ def _check_case(case, res, sink=None):
         tgt = gids[sc["target"]]
         others = {g: L.snapshot(im.st, g) for g in gids if g != tgt}
         before = L.snapshot(im.st, tgt)
+        if before is None and sc.get("merges"):
+            # merge_nodes moved the last node of the target into the other graph: there is no such graph any more
+            res.count("vacuous:target-graph-emptied-by-merge_nodes")
+            return
         g0 = im.graph(tgt)
         try:
             g0.validate_graph()
